@@ -103,9 +103,9 @@ SPEC = {
         "NOT modelled: Go's 'WaitGroup is reused before previous Wait has returned' panic, CreatePool/CreateGroup with an existing name; debug mode (deadlock detector per task) is exercised (run debug-<mode>) but not modelled",
         "Counter.Update with its subscriber chain and Start's spawn under the write lock are single atomic steps (justified by the locks held; see Hive/Model/WorkerPool.lean, Hive/Model/WorkerPoolGroup.lean)"],
     "manifest": {
-        "text": "Lean theorems over every worker count >= 1, cancel-on-shutdown on/off, any number of client threads with arbitrary scripts of Submit (tasks submitting tasks to any depth) / Shutdown / Start / ShutdownComplete.Wait / WaitIsZero and every interleaving (invariants over all reachable configurations of a protocol model whose state contains the pool's own goroutines): C16_conservation (every trace satisfies the C16 trace predicate: each task decided/run/marked done at most once, never run when rejected, counter = accepted - finished in unit steps, decreases accounted for by finished runs or - cancel-on-shutdown after a Shutdown call - by tasks that never ran), C16_no_run_after_shutdown_complete, C16_shutdown_terminates (FULL strength, no schedule hypothesis: every reachable configuration in which nobody can move has counter 0, every call returned except ShutdownComplete waits on a pool that runs again, and no live goroutine in a stopped pool; C16_exactly_once: accepted = finished), C16_group_wait (group counter = number of children with a non-zero counter; WaitChildren returns only when every pool below is at zero, arbitrary trees), C16_group_shutdown_wait (the same over every interleaving with the separate steps of Group.shutdown - flag first, pools stopped one by one - and whole Group.Shutdown calls: a task accepted between the flag and the stop of its pool counts all the way up), C16_group_stopped_pool_drains / C16_group_flags_monotone (a pool stopped by its group never counts up again; flags are never reset), C16_debounce (DebounceFunc: workerFuncs execute in strictly increasing invocation order, never overlap, and the latest invocation is never dropped; all interleavings of any number of callers and tasks), C16_stack_fifo and C16_counter_update for the sequential models of syncutils.Stack / Counter, C16_zero_workers_witness (with worker count 0 the conclusion fails: the hypothesis is necessary). Four defects were found, replayed on the real code through verif hooks and FIXED (b9bfa1a Shutdown();Start() deadlock, 9b2668a Submit window, a0dbad3 lost SignalShutdown wake-up, 1119368 Start overtaken by a restart); the old behaviour is kept as C16_old_*_witness over a frozen model of the old code. The model reads isRunning before the pending counter as two steps (a swapped order loses a task: C16_haswork_order_witness) and carries an arbitrary number of foreign Queue.WaitSizeIsAbove waiters on elementAdded (Signal instead of Broadcast fails: C16_signal_one_witness). Round 6: C16_rejected_submit_touches_nothing / C16_rejected_submit_returns (a rejected Submit - silent or panicking with WithPanicOnSubmitAfterShutdown and recovered - changes nothing but the task record and the log: no transient count, no lock kept; the life-cycle theorems quantify over arbitrary scripts, i.e. over all histories with rejected submits followed by restarts and shutdowns; C16_reject_restart_example); LOCK SCRIPTS derived from the regenerated skeletons (entry functions Start/Submit/Shutdown/IsRunning/WorkerCount/dispatcher/worker with the bodies of all callees inlined into syncutils.Stack/Counter and back through Task.run/markDone/doneCallback, receivers renamed, field types from the regenerated type facts): C16_lockscript_report (pinned scan report), C16_lockscript_no_reentry (no entry point ever acquires a mutex it holds: nothing called under w.mutex takes w.mutex again), C16_lockscript_no_wait_under_lock, C16_lockscript_balanced, C16_lockscript_order_acyclic (every nested acquisition goes up in rank: stack mutex < pool mutex < counter value mutex < subscriber mutex), C16_lockscript_defer_discipline (w.mutex is always released by a deferred unlock: panic-safe), C16_calls_pinned / C16_calls_declared / C16_calls_closed (a go/ast call-graph extractor of the check lists EVERY call of every function of workerpool.go / task.go; every method call on the receiver, a task, the queue or the pending counter is a function the lock scripts inline: a new helper cannot hide from the skeleton extractor), C16_lockscript_deadlock_free (generic theorem lock_deadlock_free over rank-ordered acq/rel scripts + the regenerated obligation that every entry point's lock operations are rank-ordered and balanced: ANY number of goroutines running any entry points of a pool never end up waiting for each other's mutexes; C16_lockscript_abba_deadlock_witness: opposite orders do), with soundness lemmas for the scan and four witnesses (seeded r6-1, r6-2, the ABBA order before a0dbad3, Start waiting under the lock before b9bfa1a); restart of a pool that its group has stopped (SOp.restart; C16_group_restart_example, C16_group_restart_only_pools; the counter-tree theorems quantify over scripts with restarts); panicking task functions: the process dies (C16_task_panic_example, computed from the skeletons; harness case taskpanic in its own process, with the property demanded of a tree that recovers). Tie: 52 regenerated obligations (47 synchronisation skeletons incl. Group.shutdown, Counter.Subscribe/notifySubscribers, and 5 struct type facts) as decide-obligations; forced schedule reject-restart with and without the panic option; silent-reject stress modes (verdicts resolved at quiescence); g restart in the group scripts; debug-mode cases in their own process; a hang-robust harness (after the first confirmed hang later waits are shortened, cases that keep hanging with one signature are skipped, the rest gets a wall budget: a tree on which every case hangs ends in < 2 min with the first finding carrying its op lines); a hook-free forced window of Group.Shutdown (group sdwin: a parked counter subscriber holds one pool's read lock) and Group.Shutdown / IsShutdown in the group scripts, answered line by line by the Lean group model; a Submit/IsRunning vs Shutdown;Start lock-race hammer with watchdog; syncutils.Counter / Stack driven line by line against their Lean models (sync seq); DebounceFunc stress whose execution trace is judged by the predicate of C16_debounce and by an independent Go oracle; event traces of real goroutines (7 hook-forced schedules, foreign queue waiters, worker counts up to 3*NumCPU, group pools with explicit options, deterministic life cycles, stress over W 1..4 x cancel x modes x nesting; group trees) judged line by line by the Lean trace predicate and by an independent Go monitor; forced-schedule outcomes must equal the model's; independent Go oracle (per-task run counts, counter at quiescence, bounded waits).",
+        "text": "Lean theorems over every worker count >= 1, cancel-on-shutdown on/off, any number of client threads with arbitrary scripts of Submit (tasks submitting tasks to any depth) / Shutdown / Start / ShutdownComplete.Wait / WaitIsZero and every interleaving (invariants over all reachable configurations of a protocol model whose state contains the pool's own goroutines): C16_conservation (every trace satisfies the C16 trace predicate: each task decided/run/marked done at most once, never run when rejected, counter = accepted - finished in unit steps, decreases accounted for by finished runs or - cancel-on-shutdown after a Shutdown call - by tasks that never ran), C16_no_run_after_shutdown_complete, C16_shutdown_terminates (FULL strength, no schedule hypothesis: every reachable configuration in which nobody can move has counter 0, every call returned except ShutdownComplete waits on a pool that runs again, and no live goroutine in a stopped pool; C16_exactly_once: accepted = finished), C16_group_wait (group counter = number of children with a non-zero counter; WaitChildren returns only when every pool below is at zero, arbitrary trees), C16_group_shutdown_wait (the same over every interleaving with the separate steps of Group.shutdown - flag first, pools stopped one by one - and whole Group.Shutdown calls: a task accepted between the flag and the stop of its pool counts all the way up), C16_group_stopped_pool_drains / C16_group_flags_monotone (a pool stopped by its group never counts up again; flags are never reset), C16_debounce (DebounceFunc: workerFuncs execute in strictly increasing invocation order, never overlap, and the latest invocation is never dropped; all interleavings of any number of callers and tasks), C16_stack_fifo and C16_counter_update for the sequential models of syncutils.Stack / Counter, C16_zero_workers_witness (with worker count 0 the conclusion fails: the hypothesis is necessary). Four defects were found, replayed on the real code through verif hooks and FIXED (b9bfa1a Shutdown();Start() deadlock, 9b2668a Submit window, a0dbad3 lost SignalShutdown wake-up, 1119368 Start overtaken by a restart); the old behaviour is kept as C16_old_*_witness over a frozen model of the old code. The model reads isRunning before the pending counter as two steps (a swapped order loses a task: C16_haswork_order_witness) and carries an arbitrary number of foreign Queue.WaitSizeIsAbove waiters on elementAdded (Signal instead of Broadcast fails: C16_signal_one_witness). Round 6: C16_rejected_submit_touches_nothing / C16_rejected_submit_returns (a rejected Submit - silent or panicking with WithPanicOnSubmitAfterShutdown and recovered - changes nothing but the task record and the log: no transient count, no lock kept; the life-cycle theorems quantify over arbitrary scripts, i.e. over all histories with rejected submits followed by restarts and shutdowns; C16_reject_restart_example); LOCK SCRIPTS derived from the regenerated skeletons (entry functions Start/Submit/Shutdown/IsRunning/WorkerCount/dispatcher/worker and the clients' calls on the exported counter / queue, with the bodies of all callees inlined into syncutils.Stack/Counter and back through Task.run/markDone/doneCallback, receivers renamed, field types from the regenerated type facts): C16_lockscript_report (pinned scan report), C16_lockscript_no_reentry (no entry point ever acquires a mutex it holds: nothing called under w.mutex takes w.mutex again), C16_lockscript_no_wait_under_lock, C16_lockscript_balanced, C16_lockscript_tasks_run_unlocked (workerFunc is called with nothing held - what makes tasks that submit tasks possible; the only user code called under a lock are the counter's subscriber callbacks), the one blocking channel operation under a lock (stop's send) pinned, C16_lockscript_order_acyclic (every nested acquisition goes up in rank: stack mutex < pool mutex < counter value mutex < subscriber mutex), C16_lockscript_defer_discipline (w.mutex is always released by a deferred unlock: panic-safe), C16_calls_pinned / C16_calls_declared / C16_calls_closed (a go/ast call-graph extractor of the check lists EVERY call of every function of workerpool.go / task.go; every method call on the receiver, a task, the queue or the pending counter is a function the lock scripts inline: a new helper cannot hide from the skeleton extractor), C16_lockscript_deadlock_free (generic theorem lock_deadlock_free over rank-ordered acq/rel scripts + the regenerated obligation that every entry point's lock operations are rank-ordered and balanced: ANY number of goroutines running any entry points of a pool never end up waiting for each other's mutexes; C16_lockscript_abba_deadlock_witness: opposite orders do), with soundness lemmas for the scan and four witnesses (seeded r6-1, r6-2, the ABBA order before a0dbad3, Start waiting under the lock before b9bfa1a); restart of a pool that its group has stopped (SOp.restart; C16_group_restart_example, C16_group_restart_only_pools; the counter-tree theorems quantify over scripts with restarts); panicking task functions: the process dies (C16_task_panic_example, computed from the skeletons; harness case taskpanic in its own process, with the property demanded of a tree that recovers). C16_debounce_exec_is_latest (an executed invocation is always the latest one made so far). Tie: 52 regenerated skeleton obligations (47 synchronisation skeletons incl. Group.shutdown, Counter.Subscribe/notifySubscribers, and 5 struct type facts) + the regenerated call lists of 25 functions as decide-obligations; concurrent debounce bursts (exactly one execution); the Go oracle rejected-submit-counted in the group scripts (a rejected Submit moves no counter of the tree, not even transiently); forced schedule reject-restart with and without the panic option; silent-reject stress modes (verdicts resolved at quiescence); g restart in the group scripts; debug-mode cases in their own process; a hang-robust harness (after the first confirmed hang later waits are shortened, cases that keep hanging with one signature are skipped, the rest gets a wall budget: a tree on which every case hangs ends in about a minute of harness time with the first finding carrying its op lines); a hook-free forced window of Group.Shutdown (group sdwin: a parked counter subscriber holds one pool's read lock) and Group.Shutdown / IsShutdown in the group scripts, answered line by line by the Lean group model; a Submit/IsRunning vs Shutdown;Start lock-race hammer with watchdog; syncutils.Counter / Stack driven line by line against their Lean models (sync seq); DebounceFunc stress whose execution trace is judged by the predicate of C16_debounce and by an independent Go oracle; event traces of real goroutines (7 hook-forced schedules, foreign queue waiters, worker counts up to 3*NumCPU, group pools with explicit options, deterministic life cycles, stress over W 1..4 x cancel x modes x nesting; group trees) judged line by line by the Lean trace predicate and by an independent Go monitor; forced-schedule outcomes must equal the model's; independent Go oracle (per-task run counts, counter at quiescence, bounded waits).",
         "note": "Trusted: Lean kernel; hand-written model Hive/Model/WorkerPool*.lean (tied by skeleton obligations + trace conformance + forced schedules, not by translation); Go sync primitive semantics as written in the model; atomicity of Counter.Update+subscribers and of Start's spawn; queue/channel order abstracted; worker count 0 outside the theorems (witness); a panicking task ends the process (read off the skeletons); lock scripts: call bindings hand-written, scan path-insensitive. After 9b2668a Counter.Increase and its subscribers run under the pool read lock (a subscriber must not call back into the pool).",
         "technique": "Lean 4 invariant proofs over an interleaving protocol model (arbitrary thread pool, all schedules) + decidable trace predicates evaluated on recorded traces of the implementation + hook-forced witness schedules + regenerated sync skeletons",
     },
-    "assumptions": ["0 < workerCount", "task functions terminate; a task function that panics ends the process (no recover in the pool: C16_task_panic_example)", "only the modelled API is used on the pool (Submit/Start/Shutdown/ShutdownComplete.Wait/PendingTasksCounter.WaitIsZero, Group.CreatePool/CreateGroup/WaitChildren)"],
+    "assumptions": ["0 < workerCount", "task functions terminate; a task function that panics ends the process (no recover in the pool: C16_task_panic_example)", "only the modelled API is used on the pool (Submit/Start/Shutdown/ShutdownComplete.Wait/PendingTasksCounter.WaitIsZero/Queue.WaitSizeIsAbove, Group.CreatePool/CreateGroup/WaitChildren/Shutdown, Start of a group-stopped pool)"],
 }
